@@ -224,7 +224,7 @@ def match_known(known, pid, harness, label, cls, input_key=None):
             continue
         if k.get("harness") not in (None, harness):
             continue
-        if k.get("label") != label:
+        if k.get("label") is not None and k.get("label") != label:
             continue
         if k.get("class") is not None and k.get("class") != cls:
             continue
@@ -632,8 +632,82 @@ def c08(tier):
     out.finish()
 
 
-def _unused():
-    pass
+# ---- weighted graph (C04, C05, C06, C10, C11): one family harness, MODE selects the assertions
+MASK_C0 = sum(1 << k for k in (0, 2, 3, 4, 7, 9, 10))
+MASK_C1 = sum(1 << k for k in (0, 3, 4, 7, 9))
+ROOT_ALL = dict(sched="all", sched_funcs=["AssignWeights"], sched_other="first", prune=True)
+ALL = dict(sched="all", prune=True)
+FIRST = dict(sched="first")
+
+
+def fam(mode, name, **kw):
+    fams = {
+        "A": {"R": 2, "OPS0": 0, "OPS1": 0},                                     # 121 models
+        "B": {"R": 2, "OPS0": 1, "OPS1": 0},                                     # 1573 models
+        "C": {"R": 2, "OPS0": 1, "OPS1": 0, "MASK0": MASK_C0, "MASK1": MASK_C1},  # 455 models
+        "D": {"R": 2, "OPS0": 1, "OPS1": 1},                                     # 20449 models
+        "E": {"R": 3, "OPS0": 0, "OPS1": 0, "OPS2": 0},                          # 1331 models
+        "P": {"R": 2, "OPS0": 1, "OPS1": 0, "PARENTS": 2, "MASK0": MASK_C0, "MASK1": MASK_C1},
+    }
+    params = dict(fams[name], MODE=mode)
+    return T("graph", "VerifGraph_Family", params, **kw)
+
+
+FAMILY_TEXT = {"A": "A: doc{a,b,p} with 11 leaf rewrites per relation (121 models)", "B": "B: a = leaf or leaf op leaf over 11 leaves x 4 second operands x {or,and,but not}, b = leaf (1573 models)",
+               "C": "C: as B with 7/5 cycle-relevant leaves (455 models)", "D": "D: a and b with operators (20449 models)", "E": "E: three relations, leaves only (1331 models)",
+               "P": "P: as C with two parent types of the tupleset"}
+GRAPH_ASSUME = ["models of the stated family only (type doc with relations a,b[,c] and tupleset p; user, employee terminal types)",
+                "ulid.Make = fresh distinct id; math.Max on converted ints = ite",
+                "goroutines are not modelled (concurrent builds are outside)",
+                "schedule = iteration order of the maps ranged over in the named functions; skip-guard reduction for `for k := range m { if visited[k] { continue } ... }` (exact, see DESIGN 2.2)"]
+
+
+def graph_check(pid, mode, tier, quick, thorough, extra_jobs=(), reach=None):
+    spec = quick if tier == "quick" else thorough
+    jobs = list(extra_jobs)
+    bounds = {}
+    for name, pol, polname in spec:
+        jobs.append(fam(mode, name, **pol))
+        bounds["family " + name + " under " + polname] = FAMILY_TEXT[name]
+    rr = {"VerifGraph_Family": reach or ["accepted"]}
+    for j in extra_jobs:
+        rr[j["harness"]] = j.pop("_reach", [])
+    out = engine_a_check(pid, tier, jobs, rr, GRAPH_ASSUME, "", bounds=bounds, repeat_native=1)
+    out.finish()
+
+
+def kernels():
+    return [dict(T("graph", "VerifC04_KernelIntersection", {"E": 2, "KEYS": 2}, **ALL), _reach=["accepted", "rejected"]),
+            dict(T("graph", "VerifC04_KernelUnion", {"E": 2}, **ALL), _reach=["checked"]),
+            dict(T("graph", "VerifC04_KernelExclusion", {}, **ALL), _reach=["checked"]),
+            dict(T("graph", "VerifC04_KernelEdge", {}, **ALL), _reach=["checked"])]
+
+
+def c04(tier):
+    graph_check("C04", 4, tier, [("B", FIRST, "first order"), ("C", ROOT_ALL, "all root orders")],
+                [("B", ROOT_ALL, "all root orders"), ("D", FIRST, "first order"), ("E", ROOT_ALL, "all root orders"), ("P", ROOT_ALL, "all root orders"), ("A", ALL, "all orders of all maps")],
+                extra_jobs=kernels())
+
+
+def c05(tier):
+    graph_check("C05", 5, tier, [("A", ALL, "all orders of all maps"), ("B", FIRST, "first order")],
+                [("B", ROOT_ALL, "all root orders"), ("D", FIRST, "first order"), ("E", ROOT_ALL, "all root orders"), ("P", ROOT_ALL, "all root orders"), ("A", ALL, "all orders of all maps")],
+                reach=["accepted", "rejected"])
+
+
+def c06(tier):
+    graph_check("C06", 6, tier, [("A", ALL, "all orders of all maps"), ("C", ROOT_ALL, "all root orders")],
+                [("B", ROOT_ALL, "all root orders"), ("E", ROOT_ALL, "all root orders"), ("P", ROOT_ALL, "all root orders"), ("A", ALL, "all orders of all maps")], reach=["return"])
+
+
+def c10(tier):
+    graph_check("C10", 10, tier, [("B", FIRST, "first order"), ("P", FIRST, "first order")],
+                [("D", FIRST, "first order"), ("E", FIRST, "first order"), ("P", ROOT_ALL, "all root orders")])
+
+
+def c11(tier):
+    graph_check("C11", 11, tier, [("B", FIRST, "first order"), ("C", ROOT_ALL, "all root orders")],
+                [("B", ROOT_ALL, "all root orders"), ("D", FIRST, "first order"), ("E", ROOT_ALL, "all root orders"), ("A", ALL, "all orders of all maps")])
 
 
 def c03(tier):
@@ -644,7 +718,8 @@ def c03(tier):
     out.finish()
 
 
-REGISTRY = {"C15": c15, "C18": c18, "C16": c16, "C14": c14, "C03": c03, "C02": c02, "C13": c13, "C08": c08}
+REGISTRY = {"C15": c15, "C18": c18, "C16": c16, "C14": c14, "C03": c03, "C02": c02, "C13": c13, "C08": c08,
+            "C04": c04, "C05": c05, "C06": c06, "C10": c10, "C11": c11}
 
 
 def main():
